@@ -119,3 +119,18 @@ Theorem C19_contract_is_needed :
     items (q s) = [] /\ inflight (pool s) = [] /\ results s = [].
 Proof. exact contract_is_needed. Qed.
 Print Assumptions C19_contract_is_needed.
+
+(* HTTP client (repaired: it always completes the pending result), any server behaviour, any
+   number of requests: exchanges on its connection never overlap, and an exchange that broke off
+   (refused, timed out, hung up) is followed by close() before the next request is written *)
+Theorem C19_http_one_exchange_then_reset : forall reuse (polls : list hpoll_item),
+    http_clean HClean (hrun_wire reuse polls) = true.
+Proof. exact http_one_exchange_then_reset. Qed.
+Print Assumptions C19_http_one_exchange_then_reset.
+
+(* ... and it keeps the pool contract *)
+Theorem C19_http_client_keeps_contract : forall reuse (polls : list hpoll_item) c,
+    follows_contract HBusy (hrun_acts reuse polls) = true /\
+    Forall contract_ev (flat_map (evs_of_act c) (hrun_acts reuse polls)).
+Proof. exact http_client_contract. Qed.
+Print Assumptions C19_http_client_keeps_contract.
